@@ -123,7 +123,54 @@ func isCompletionRecv(ins ssa.Instruction) bool {
 	return f != nil && f.Name() == "completion"
 }
 
+// mustWaitFuncs: functions of the package on every path of which the task's
+// completion channel is received from (directly or through another such
+// function) – helpers a maintainer may extract the wait into.
+var mustWaitMemo = map[*ssa.Function]int{} // 1 yes, 2 no, 3 in progress
+
+func mustWait(fn *ssa.Function) bool {
+	if fn == nil || len(fn.Blocks) == 0 {
+		return false
+	}
+	switch mustWaitMemo[fn] {
+	case 1:
+		return true
+	case 2, 3:
+		return false
+	}
+	mustWaitMemo[fn] = 3
+	ok := true
+	rets := returnsOf(fn)
+	if len(rets) == 0 {
+		ok = false
+	}
+	for _, r := range rets {
+		if entryReachesAvoiding(fn, r, waitsForTask) {
+			ok = false
+		}
+	}
+	if ok {
+		mustWaitMemo[fn] = 1
+	} else {
+		mustWaitMemo[fn] = 2
+	}
+	return ok
+}
+
+func waitsForTask(ins ssa.Instruction) bool {
+	if isCompletionRecv(ins) {
+		return true
+	}
+	if cc := callOf(ins); cc != nil {
+		if callee := cc.StaticCallee(); callee != nil && callee.Pkg != nil && ins.Parent() != nil && callee.Pkg == topFunc(ins.Parent()).Pkg {
+			return mustWait(callee)
+		}
+	}
+	return false
+}
+
 func runR152(c *Ctx) {
+	mustWaitMemo = map[*ssa.Function]int{}
 	bt := c.LookupType(bufferRel, "Buffer")
 	T := c.LookupType(bufferRel, "casBufferWithBackgroundTask")
 	if bt == nil || T == nil {
@@ -213,7 +260,7 @@ func runR152(c *Ctx) {
 			}
 			// (ii) every path from the use to a return receives from completion
 			for _, r := range returnsOf(fn) {
-				if reachableAvoiding(use, r, isCompletionRecv) {
+				if reachableAvoiding(use, r, waitsForTask) {
 					bad, badPos = "a path from the use of the wrapped buffer ("+use.Call.Method.Name()+") to a return does not wait for the background task: the operation can report completion while the task is still running, and the task's error is lost", r.Pos()
 				}
 			}
@@ -245,7 +292,7 @@ func runR152(c *Ctx) {
 				}
 				// is there a path from entry to this load avoiding a wait?
 				waits := func(i ssa.Instruction) bool {
-					if isCompletionRecv(i) {
+					if waitsForTask(i) {
 						return true
 					}
 					// r.Close() of the same receiver waits (chunkReaderWithBackgroundTask)
@@ -467,15 +514,11 @@ func runR154(c *Ctx) {
 				return
 			}
 			nclose++
-			noPending := dominatedByCmp(ins.Block(), func(op token.Token, x, y ssa.Value) bool {
+			noPending := dominatedByUpperBound(ins.Block(), func(x ssa.Value) bool {
 				f, _ := loadedField(x)
-				k, isK := constInt(y)
-				return f != nil && f.Name() == "pendingConsumers" && isK && k == 0 && (op == token.LEQ || op == token.EQL)
-			})
-			noWaiting := dominatedByCmp(ins.Block(), func(op token.Token, x, y ssa.Value) bool {
-				k, isK := constInt(y)
-				return op == token.EQL && isLenOfField(x, "waitingConsumers") && isK && k == 0
-			})
+				return f != nil && f.Name() == "pendingConsumers"
+			}, 0)
+			noWaiting := dominatedByUpperBound(ins.Block(), func(x ssa.Value) bool { return isLenOfField(x, "waitingConsumers") }, 0)
 			cleared := true
 			for _, r := range returnsOf(cl) {
 				if reachableAvoiding(ins, r, func(i ssa.Instruction) bool {
@@ -507,11 +550,10 @@ func runR154(c *Ctx) {
 					return
 				}
 				nclose++
-				ok := dominatedByCmp(ins.Block(), func(op token.Token, x, y ssa.Value) bool {
-					k, isK := constInt(y)
+				ok := dominatedByUpperBound(ins.Block(), func(x ssa.Value) bool {
 					cl, isC := x.(*ssa.Call)
-					return op == token.LSS && isK && k == 0 && isC && cl.Call.StaticCallee() != nil && cl.Call.StaticCallee().Name() == "Add"
-				})
+					return isC && cl.Call.StaticCallee() != nil && cl.Call.StaticCallee().Name() == "Add"
+				}, -1)
 				c.Check(ok, FuncName(f), "count-closes", c.Pos(ins.Pos()), "the ReaderAt is closed only when the clone count drops below zero", "the shared ReaderAt can be closed while clones still reference it")
 			})
 		}
